@@ -37,6 +37,11 @@ theorem wSeqBody_shift (e : Endian) (f : Val → Nat → W) (vs : List Val) (h :
   intro p
   simp only [wSeqBody, wPrim_shift e .u32 _ p, wList_shift f vs h (wPrim .v2 e .u32 (vs.length % 2 ^ 32) p).2]
 
+theorem wWStr_shift (e : Endian) (us : List Val) : Shift4 (wWStr .v2 e us) := by
+  intro p
+  have hl := wList_shift (fun v q => wPrim .v2 e .u16 v.unit q) us (fun v _ => wPrim_shift e .u16 v.unit)
+  simp only [wWStr, wPrim_shift e .u32 _ p, hl (wPrim .v2 e .u32 ((us.length + 1) % 2 ^ 32) p).2, wPrim_shift e .u16 0 _]
+
 theorem wDh_shift (e : Endian) (body : Nat → W) (h : Shift4 body) : Shift4 (wDh .v2 e body) := by
   intro p
   have hp := wPad_v2_shift 4 p (by simp)
@@ -71,7 +76,8 @@ mutual
 theorem ser_shift (cfg : Cfg) (e : Endian) : (t : Ty) → (v : Val) → Shift4 (ser cfg .v2 e t v)
   | .prim p, .num n => by intro q; simp only [ser]; exact wPrim_shift e p n q
   | .str, .str bs => by intro q; simp only [ser]; exact wStr_shift e bs q
-  | .enum h _, .num n => by intro q; simp only [ser]; exact wPrim_shift e h n q
+  | .enum h _ _, .num n => by intro q; simp only [ser]; exact wPrim_shift e h n q
+  | .wstr, .list us => by intro q; simp only [ser]; exact wWStr_shift e us q
   | .seq el, .list vs => by
     intro q
     have hel : ∀ v ∈ vs, Shift4 (ser cfg .v2 e el v) := fun v _ => ser_shift cfg e el v
@@ -99,12 +105,31 @@ theorem ser_shift (cfg : Cfg) (e : Endian) : (t : Ty) → (v : Val) → Shift4 (
     refine wDh_shift e _ (emit2_shift e _ ?_) q
     intro c hc
     exact chunks_shift cfg e ms fs c ((mem_sortChunks c _).mp hc)
+  | .union disc bs, .struct fs => by
+    intro q
+    simp only [ser]
+    split
+    · rename_i d id v
+      simp only [wPrim_shift e disc d q, serB_shift cfg e bs id v (wPrim .v2 e disc d q).2]
+    · rename_i d
+      exact wPrim_shift e disc d q
+    · rfl
+  | .union _ _, .num _ | .union _ _, .str _ | .union _ _, .list _ | .union _ _, .absent => by intro q; simp [ser]
   | .prim _, .str _ | .prim _, .list _ | .prim _, .struct _ | .prim _, .absent => by intro q; simp [ser]
   | .str, .num _ | .str, .list _ | .str, .struct _ | .str, .absent => by intro q; simp [ser]
-  | .enum _ _, .str _ | .enum _ _, .list _ | .enum _ _, .struct _ | .enum _ _, .absent => by intro q; simp [ser]
+  | .enum _ _ _, .str _ | .enum _ _ _, .list _ | .enum _ _ _, .struct _ | .enum _ _ _, .absent => by intro q; simp [ser]
+  | .wstr, .num _ | .wstr, .str _ | .wstr, .struct _ | .wstr, .absent => by intro q; simp [ser]
   | .seq _, .num _ | .seq _, .str _ | .seq _, .struct _ | .seq _, .absent => by intro q; simp [ser]
   | .arr _ _, .num _ | .arr _ _, .str _ | .arr _ _, .struct _ | .arr _ _, .absent => by intro q; simp [ser]
   | .struct _ _, .num _ | .struct _ _, .str _ | .struct _ _, .list _ | .struct _ _, .absent => by intro q; simp [ser]
+theorem serB_shift (cfg : Cfg) (e : Endian) : (bs : Bs) → (id : Nat) → (v : Val) → Shift4 (serB cfg .v2 e bs id v)
+  | .nil, _, _ => by intro q; simp [serB]
+  | .cons id' _ _ t r, id, v => by
+    intro q
+    simp only [serB]
+    split
+    · exact ser_shift cfg e t v q
+    · exact serB_shift cfg e r id v q
 theorem serF_shift (cfg : Cfg) (e : Endian) : (ms : Ms) → (fs : List Val) → Shift4 (serF cfg .v2 e ms fs)
   | .nil, _ => by intro q; simp [serF]
   | .cons _ _ _ _ _, [] => by intro q; simp [serF]
